@@ -99,10 +99,180 @@ def all_data_is_storage(chk):
     return len(rets) == 1 and src(rets[0].value) == "self._f"
 
 
+# ---------------------------------------------------------------------------------------------------------
+# a real-input transform completed by Hermitian symmetry: rfft of the real part gives the modes 0 .. n//2 of the line, the other
+# positions are the conjugates of their mirror images, X[n - k] = conj(X[k]).  Whether every position of the line is written, with
+# the right mirror image, is a tiling question on index ranges that are affine in h = n // 2 and n: decided for both parities of n
+# (n = 2h and n = 2h + 1), never assumed from one of them.
+# ---------------------------------------------------------------------------------------------------------
+
+H_SYM, N_SYM = sp.Symbol("h", integer=True, positive=True), sp.Symbol("n", integer=True, positive=True)
+
+
+def _line_length_forms(v, arg):
+    """the expressions that denote the number of points of a line (the last axis of the 3-D layout); `v` = the names / expressions
+    of the line itself"""
+    g = f"{arg}.getLayout({arg}.currentLayout).shape"
+    out = {f"{g}[-1]", f"{g}[2]", f"len({arg}.getCoordVals(2))", f"{arg}.getCoordVals(2).size"}
+    for x in ([v] if isinstance(v, str) else v):
+        out |= {f"len({x})", f"{x}.size", f"{x}.shape[0]", f"{x}.shape[-1]"}
+    return out
+
+
+def _affine(e, v, arg):
+    """index expression -> sympy over h = (line length) // 2 and n = line length; KeyError when it is anything else"""
+    if isinstance(e, ast.Constant) and isinstance(e.value, int) and not isinstance(e.value, bool):
+        return sp.Integer(e.value)
+    t = src(e).replace(" ", "")
+    forms = {x.replace(" ", "") for x in _line_length_forms(v, arg)}
+    if t in forms:
+        return N_SYM
+    if isinstance(e, ast.BinOp) and isinstance(e.op, ast.FloorDiv) and src(e.right) == "2" and src(e.left).replace(" ", "") in forms:
+        return H_SYM
+    if isinstance(e, ast.BinOp) and isinstance(e.op, (ast.Add, ast.Sub)):
+        a, b = _affine(e.left, v, arg), _affine(e.right, v, arg)
+        return a + b if isinstance(e.op, ast.Add) else a - b
+    if isinstance(e, ast.UnaryOp) and isinstance(e.op, ast.USub):
+        return -_affine(e.operand, v, arg)
+    raise KeyError(src(e))
+
+
+def _positions(sl, v, arg, env, use, parity):
+    """(first position, step, count) of the positions a slice of the line selects, for n = 2h (parity 0) or n = 2h + 1 (parity 1),
+    h large enough for every sign to be that of the leading term; KeyError when the slice is not followed"""
+    if not isinstance(sl, ast.Slice):
+        raise KeyError(src(sl))
+    n_val = 2 * H_SYM + parity
+
+    def val(x):
+        return sp.expand(_affine(env.x(x, use=use), v, arg).subs(N_SYM, n_val))
+
+    def negative(x):
+        c1 = x.coeff(H_SYM, 1)
+        return c1 < 0 or (c1 == 0 and x.coeff(H_SYM, 0) < 0)
+    step = 1
+    if sl.step is not None:
+        st_ = val(sl.step)
+        if st_ not in (1, -1):
+            raise KeyError("step " + src(sl.step))
+        step = int(st_)
+
+    def norm(x):
+        return sp.expand(x + n_val) if negative(x) else x
+    if step == 1:
+        lo = norm(val(sl.lower)) if sl.lower is not None else sp.Integer(0)
+        hi = norm(val(sl.upper)) if sl.upper is not None else n_val
+        return lo, 1, sp.expand(hi - lo)
+    lo = norm(val(sl.lower)) if sl.lower is not None else n_val - 1
+    hi = norm(val(sl.upper)) if sl.upper is not None else sp.Integer(-1)
+    return lo, -1, sp.expand(lo - hi)
+
+
+def hermitian_completion(fn, env, c, st, arg):
+    """(verdict, text) for `line[:h+1] = rfft(line.real)` followed by stores of conjugated mirror images: True when for both
+    parities of the line length every position p > h receives conj(X[n - p]) and no position is left unwritten, False with the
+    diagnosis when a position is provably never written for one parity, None when the construction is not followed"""
+    if len(c.args) != 1 or any(k.arg != "overwrite_x" for k in c.keywords):
+        return None, "options of the real-input transform not followed"
+    a0 = c.args[0]
+    base = a0.value if isinstance(a0, ast.Attribute) and a0.attr == "real" else (
+        a0.args[0] if isinstance(a0, ast.Call) and src(a0.func) in ("np.real", "numpy.real") and len(a0.args) == 1 else None)
+    if not isinstance(base, ast.Name):
+        return None, "the real-input transform is not applied to the real part of a named line"
+    v = base.id
+    line = env.x(base, use=st)
+    if not (isinstance(line, ast.Call) and src(line.func) == f"{arg}.get1DSlice") or env.amb:
+        return None, f"`{v}` is not a line {arg}.get1DSlice(...)"
+    vnames = (v, src(line))
+    blk, k0 = _block_of(st)
+    if blk is None:
+        return None, "statement block not found"
+    first, mirrors = None, []
+    for s2 in blk:
+        names = [x for x in ast.walk(s2) if isinstance(x, ast.Name) and x.id == v]
+        if not names:
+            continue
+        if isinstance(s2, ast.Assign) and len(s2.targets) == 1 and isinstance(s2.targets[0], ast.Name) and s2.targets[0].id == v:
+            continue                                        # the definition of the view
+        if isinstance(s2, ast.Assign) and all(isinstance(t_, ast.Name) for t_ in s2.targets) and all(
+                (isinstance(parent(x), ast.Call) and src(parent(x).func) == "len") or
+                (isinstance(parent(x), ast.Attribute) and parent(x).attr in ("size", "shape")) for x in names):
+            continue                                        # a local computed from the length of the line only
+        if not (isinstance(s2, ast.Assign) and len(s2.targets) == 1 and isinstance(s2.targets[0], ast.Subscript)
+                and isinstance(s2.targets[0].value, ast.Name) and s2.targets[0].value.id == v):
+            return None, f"`{src(s2)[:50]}` uses the line in a way that is not followed"
+        if s2 is st and s2.value is c:
+            first = s2
+            continue
+        val = s2.value
+        inner = None
+        if isinstance(val, ast.Call) and src(val.func) in ("np.conj", "np.conjugate", "numpy.conj", "numpy.conjugate") and len(val.args) == 1:
+            inner = val.args[0]
+        elif isinstance(val, ast.Call) and isinstance(val.func, ast.Attribute) and val.func.attr in ("conj", "conjugate") and not val.args:
+            inner = val.func.value
+        if first is None or not (isinstance(inner, ast.Subscript) and isinstance(inner.value, ast.Name) and inner.value.id == v):
+            return None, f"`{src(s2)[:50]}` is not the store of conjugated mirror images of the line"
+        mirrors.append((s2, inner))
+    if first is None:
+        return None, "the store of the transformed half into the line was not found"
+    problems = []
+    try:
+        for parity in (0, 1):
+            lo, step, cnt = _positions(first.targets[0].slice, vnames, arg, env, first, parity)
+            if not (lo == 0 and step == 1 and sp.expand(cnt - (H_SYM + 1)) == 0):
+                return None, f"`{src(first.targets[0])}` is not the positions 0 .. n//2 the real-input transform returns"
+            top = H_SYM                                   # positions 0 .. top are written
+            n_val = 2 * H_SYM + parity
+            spans = []
+            for s2, inner in mirrors:
+                tl, ts, tc = _positions(s2.targets[0].slice, vnames, arg, env, s2, parity)
+                sl_, ss, sc = _positions(inner.slice, vnames, arg, env, s2, parity)
+                if sp.expand(tc - sc) != 0 or ts != -ss or sp.expand(tl + sl_ - n_val) != 0:
+                    return None, f"`{src(s2)[:60]}` does not pair position p with position n - p for {'odd' if parity else 'even'} n"
+                t_lo, t_hi = (tl, tl + tc - 1) if ts == 1 else (tl - tc + 1, tl)
+                s_lo, s_hi = (sl_, sl_ + sc - 1) if ss == 1 else (sl_ - sc + 1, sl_)
+                if sp.expand(s_lo).coeff(H_SYM, 0) < 1 and sp.expand(s_lo).coeff(H_SYM, 1) == 0 and sp.expand(s_lo) < 1 or \
+                        (sp.expand(H_SYM - s_hi).coeff(H_SYM, 1) == 0 and sp.expand(H_SYM - s_hi) < 0) or \
+                        sp.expand(H_SYM - s_hi).coeff(H_SYM, 1) < 0:
+                    return None, f"`{src(inner)}` reads positions outside the transformed half 1 .. n//2"
+                spans.append((sp.expand(t_lo), sp.expand(t_hi), s2))
+            # tiling: the mirrored spans, taken from the top of the line downwards, must reach position top + 1
+            need_hi = sp.expand(n_val - 1)
+            for t_lo, t_hi, s2 in sorted(spans, key=lambda x: -sp.expand(x[1]).coeff(H_SYM, 1) * 10 ** 6 - sp.expand(x[1]).coeff(H_SYM, 0)):
+                d = sp.expand(need_hi - t_hi)
+                if not d.is_number:
+                    return None, "spans of the mirrored positions not comparable"
+                if d > 0:
+                    problems.append((parity, need_hi, t_hi))
+                    break
+                need_hi = sp.expand(t_lo - 1)
+            else:
+                d = sp.expand(need_hi - top)
+                if not d.is_number:
+                    return None, "spans of the mirrored positions not comparable"
+                if d > 0:
+                    problems.append((parity, sp.expand(top + 1), need_hi))
+    except KeyError as e:
+        return None, f"index expression `{str(e)[:50]}` is not affine in the line length and its half"
+    if not problems:
+        return True, "positions 0 .. n//2 hold the real-input transform, every other position p the conjugate of position n - p, for even and odd n"
+    parity, a_, b_ = problems[0]
+    which = "odd" if parity else "even"
+    okother = not any(p_[0] != parity for p_ in problems)
+    rng_ = f"position {a_}" if sp.expand(a_ - b_) == 0 else f"positions {a_} .. {b_}"
+    return False, (f"for {which} n = 2h{'+1' if parity else ''} (h = n//2) {rng_} of the line "
+                   f"{'is' if sp.expand(a_ - b_) == 0 else 'are'} never written: the positions 0 .. h receive the real-input transform and "
+                   f"the mirrored stores {[src(m_[0].targets[0]) for m_ in mirrors]} stop short of it"
+                   f"{' (the even case is complete: the construction treats position n//2 as its own mirror image, which holds for even n only)' if okother and parity else ''}"
+                   ": that position keeps the physical-space value of the density, so fft followed by ifft is not the identity and the "
+                   "potential gets an imaginary part")
+
+
 def transforms(chk):
     mod = chk.mod(U.POISSON)
     imports = _imports(mod.tree)
     results = []
+    norms = {}
     for m, f, arg in (("getModes", "fft", "rho"), ("findPotential", "ifft", "phi")):
         q = f"{DES}.{m}"
         fn = flat_view(chk, U.POISSON, DES, m)
@@ -118,24 +288,39 @@ def transforms(chk):
             c, kind = calls[0]
             st = _stmt_of(c)
             extra, unknown_opts = [], []
+            axis_opt, out_opt = None, None
+            norms[m] = "backward"
             for k in c.keywords:
                 if k.arg == "overwrite_x":
                     continue
-                if k.arg == "axis" and src(k.value) in ("-1", "2"):
+                if k.arg == "axis" and isinstance(k.value, (ast.Constant, ast.UnaryOp)) and src(k.value).lstrip("-").isdigit():
+                    axis_opt = int(src(k.value))        # judged below against the number of axes of what is transformed
                     continue
-                if k.arg == "norm" and src(k.value) in ("None", "'backward'"):
+                if k.arg == "norm" and isinstance(k.value, ast.Constant) and k.value.value in (None, "backward", "ortho", "forward"):
+                    # AUDIT: the normalisation is a contract between the two transforms (the solve between them is linear): judged
+                    # for the pair, not against the default
+                    norms[m] = k.value.value or "backward"
                     continue
-                if k.arg == "axis" and isinstance(k.value, ast.Constant) or k.arg == "norm" and isinstance(k.value, ast.Constant):
-                    extra.append(f"{k.arg}={src(k.value)}")
-                else:
-                    unknown_opts.append(f"{k.arg}={src(k.value)}")
+                if k.arg == "norm":
+                    norms[m] = None
+                if k.arg == "out":
+                    out_opt = k.value
+                    continue
+                unknown_opts.append(f"{k.arg}={src(k.value)}")
             if len(c.args) > 1:
                 unknown_opts += [src(a) for a in c.args[1:]]
             # where the transformed line comes from and where the result goes
             line = env.x(c.args[0], use=st) if c.args else None
             store = None
             cp = copy_store(st) if isinstance(st, ast.Expr) else None
-            if cp is not None and cp[1] is c:
+            if out_opt is not None and isinstance(st, (ast.Expr, ast.Assign)) and st.value is c:
+                # fft(line, out=target): the result is written into `target`
+                store = ast.Assign(targets=[ast.Subscript(value=out_opt, slice=ast.Slice(lower=None, upper=None, step=None), ctx=ast.Store())],
+                                   value=c)
+                ast.copy_location(store, st)
+                ast.fix_missing_locations(store)
+                store._use = st
+            elif cp is not None and cp[1] is c:
                 # np.copyto(line, fft(line)) is the slice assignment line[:] = fft(line)
                 store = ast.Assign(targets=[cp[0]], value=c)
                 ast.copy_location(store, st)
@@ -181,12 +366,41 @@ def transforms(chk):
                     if src(line) == v_ and src(tgt) == v_ and \
                             same_expr(it, f"{arg}.getAllData().reshape(-1, {arg}.getAllData().shape[-1])"):
                         shape = "rows" if grid_storage_is_contiguous(chk) else "rows?"
-            if kind == inv:
+            # the option axis=<k>: the axis of what is transformed (a line has one axis, the local block three)
+            ndim = {"slices": 1, "rows": 1, "block": 3}.get(shape)
+            if axis_opt is not None:
+                if ndim is None:
+                    unknown_opts.append(f"axis={axis_opt}")
+                elif axis_opt not in (-1, ndim - 1):
+                    extra.append(f"axis={axis_opt}")
+            direct = shape in ("slices", "rows", "block") and store is not None and store.value is c
+            und_why = None
+            # AUDIT (kind): "another function of the transform library" is a defect only for a recognised wrong form - the inverse
+            # transform applied directly to the line and stored as it is.  Any other function (a real-input transform completed by
+            # Hermitian symmetry, an n-dimensional transform restricted to one axis, the inverse with conjugations around it) may be an
+            # equivalent formulation: undecided
+            if kind == inv and direct:
                 bad = (f"{m} applies `{kind}` where the pipeline needs `{f}`: the forward and inverse transforms are exchanged, so the modes "
                        f"are scaled by 1/n and conjugated (mode m and -m exchanged) with respect to the numbering of self._mVals")
+            elif kind == "rfft" and f == "fft":
+                hv, hwhy = hermitian_completion(fn, env, c, st, arg)
+                in_loops = len(loops) == 2 and [src(env.x(l_.iter)).replace(" ", "") for l_ in loops[::-1]] == \
+                    [f"{arg}.getCoords(0)", f"{arg}.getCoords(1)"]
+                if hv is False:
+                    bad = f"{m} builds the modes from a real-input transform: " + hwhy
+                elif hv and in_loops and o is not None and o[-1] == 1:
+                    ok = True
+                    why = (f"every (r,z) line of the asserted layout {o} receives the modes of its real part: " + hwhy +
+                           " (the density is real when it is transformed: S-spectral-state)")
+                else:
+                    und_why = f"{m} applies the real-input transform `rfft`: " + (hwhy if not hv else "enumeration of the lines not followed")
             elif kind != f:
-                bad = (f"{m} applies `{kind}`, which is not the complex transform `{f}`: the output is not in the mode order of np.fft.fftfreq "
-                       "that the per-mode tables use")
+                und_why = (f"{m} applies `{kind}` instead of the complex transform `{f}`: whether what is built around it gives every mode "
+                           "of the line in the order of np.fft.fftfreq is not followed")
+            # AUDIT (the remaining diagnoses): an axis option is judged against the number of axes of what is transformed (known
+            # only when the enumeration of the lines was recognised); the layout is the one the method itself asserts; `swapped` /
+            # `mismatch` compare the line read with the line written, both taken from the same loops; "never written back" needs
+            # the result to be dropped (an expression statement, or a name never read) and no out= argument
             elif extra:
                 bad = (f"`{f}` is called with the options {extra}: the plain transform (default normalisation, along the line) is what makes "
                        "ifft(fft(x)) = x and puts mode m of np.fft.fftfreq at position m of the output")
@@ -209,7 +423,23 @@ def transforms(chk):
                        (" - lines taken as the rows of the contiguous local array" if shape == "rows" else
                         " - one batched transform along the last axis of the local block, written back into the grid's storage"
                         if shape == "block" else ""))
-        chk.pat("F5-transform-pair", fn, f"{m}: {f} along theta, in place", ok, why, bad, file=U.POISSON, func=q)
+        else:
+            und_why = None
+        if not ok and not bad and und_why:
+            chk.ob("F5-transform-pair", fn, f"{m}: {f} along theta, in place", None, und_why, file=U.POISSON, func=q)
+        else:
+            chk.pat("F5-transform-pair", fn, f"{m}: {f} along theta, in place", ok, why, bad, file=U.POISSON, func=q)
+    # the two transforms are mutually inverse only when their normalisations correspond (same mode on both sides)
+    if len(norms) == 2 and all(v is not None for v in norms.values()):
+        same = norms["getModes"] == norms["findPotential"]
+        chk.ob("F5-transform-pair", mod.tree, "normalisation of the pair fft / ifft", same,
+               f"both transforms use norm='{norms['getModes']}': ifft(fft(x)) = x" if same else
+               f"getModes transforms with norm='{norms['getModes']}' and findPotential with norm='{norms['findPotential']}': the two are not "
+               "inverse to each other, the potential is scaled by a power of the number of theta points", file=U.POISSON, func="<module>",
+               nontrivial=False)
+    elif norms:
+        chk.ob("F5-transform-pair", mod.tree, "normalisation of the pair fft / ifft", None,
+               f"normalisation options not both resolved: {norms}", file=U.POISSON, func="<module>")
     # the names the calls go through
     resolved = all(cs for _, cs in results)
     wrong = {nm: o for nm, o in imports.items() if nm in ("fft", "ifft") and o.rpartition(".")[0] in FFT_MODULES and o.rpartition(".")[2] != nm}
@@ -313,6 +543,9 @@ def mode_numbers(chk):
                    "mode numbers are the integer frequencies in the transform's own output order (0..,-..-1), for even and odd counts "
                    "(evaluated for nTheta = 1..16)", file=U.POISSON, func=q)
             return
+        # AUDIT: the defining expression is closed over nTheta (constructor argument, every local resolved, no in-place modification
+        # of the table other than the elementwise powers accounted for by C14) and is evaluated against np.fft.fftfreq for
+        # nTheta = 1..16, both parities: the mismatch reported is an arithmetic fact about that expression
         if isinstance(res, tuple):
             chk.ob("F5-mode-numbers", defs[0], src(defs[0]), False,
                    f"`{src(ex)[:80]}` is not the numbering of the transform's output: {res[1]}; the per-mode operators and Neumann lists "
@@ -458,6 +691,15 @@ def m0_generic(chk, fn, env, stiff):
     r = sp.Symbol("r", positive=True)
     Tef, Bs = sp.Function("Te"), sp.Symbol("B")
     cblock = stiff.get("self._PhiPsi", 0)
+    # AUDIT: the reaction term of the common operator is (coefficient of the C block in the operator) x (factor the C block is stored
+    # with) / (factor the operator as a whole carries) x rFactor: the storage conventions of the assembly are composed in
+    from .C14 import block_signs
+    sg = block_signs(chk)
+    conv = None
+    if sg.get("sigma") is not None and sg.get("blocks", {}).get("PhiPsiCoeffs") is not None:
+        conv = sp.simplify(sg["blocks"]["PhiPsiCoeffs"] / sg["sigma"])
+        if not conv.is_number:
+            conv = None
     seen = set()
     for c in calls:
         st = _stmt_of(c)
@@ -482,12 +724,14 @@ def m0_generic(chk, fn, env, stiff):
                 continue
             cases += [(f"chi={v_}", v_, (1 - v_) * Bs * Bs / Tef(r)) for v_ in sorted(vals)]
         for tag, v_, want in cases:
-            got = cblock * (rf.subs(CHI, v_) if v_ is not None else rf)
+            got = cblock * (conv if conv is not None else 1) * (rf.subs(CHI, v_) if v_ is not None else rf)
             if got.has(CHI):
                 chk.ob("F5-m0-convention", c, f"m=0 operator for {tag}: the operator of every mode", None,
                        "chi used outside the adiabatic branch", file=U.POISSON, func=q)
                 continue
             ok = alg_equal(got, want)
+            if not ok and conv is None:
+                ok = None           # the storage convention of the C block was not established
             seen.add(tag)
             chk.ob("F5-m0-convention", c, f"m=0 operator for {tag}: the operator of every mode", ok,
                    f"no separate m=0 operator; the reaction term of the common operator is {sp.simplify(got)} = (1 - chi) B^2/Te for {tag}" if ok else
@@ -569,6 +813,9 @@ def m0_operator(chk):
         elif isinstance(val, ast.Subscript) and isinstance(val.value, (ast.Tuple, ast.List)) and src(val.slice) == "chi" and \
                 case[1] is not None and case[1] < len(val.value.elts):
             val = val.value.elts[case[1]]
+        # AUDIT: the operator is compared block by block with the theta-independent operator the base class assembles (`stiff`, with
+        # whatever signs the blocks are stored with): relational, not against today's expression; VIOLATED only when every guard on
+        # adiabaticElectrons / chi around the assignments was recognised (`all_known`)
         try:
             got = vec(val, case[1])
             ok = got == w
@@ -589,7 +836,16 @@ def m0_operator(chk):
     need = {t_ for t_, _ in CASES.values()}
     okc = need <= covered and raises and "self._PhiPsi" in stiff
     bad = None
-    if not (need <= set(CASES[c_][0] for c_ in last)) and all_known:
+    # AUDIT: "no operator for that configuration (attribute error)" needs the attribute to have no other definition: no store outside
+    # this constructor (a default set by the base class / at class level would be used instead)
+    elsewhere0 = [n for c_ in chk.mod(U.POISSON).tree.body if isinstance(c_, ast.ClassDef) and c_.name in (DES, QN) for n in ast.walk(c_)
+                  if (isinstance(n, ast.Attribute) and n.attr == "_stiffness0" and isinstance(n.ctx, ast.Store)) or
+                  (isinstance(n, ast.Name) and n.id == "_stiffness0" and isinstance(n.ctx, ast.Store))]
+    own0 = {id(t) for d in defs for t in ast.walk(d)}
+    raw_defs = [n for n in ast.walk(chk.func(U.POISSON, f"{QN}.__init__")) if isinstance(n, ast.Attribute) and n.attr == "_stiffness0"
+                and isinstance(n.ctx, ast.Store)]
+    has_default = len(elsewhere0) > len(raw_defs)
+    if not (need <= set(CASES[c_][0] for c_ in last)) and all_known and not has_default:
         bad = (f"self._stiffness0 is not defined for {sorted(need - set(CASES[c_][0] for c_ in last))}: the m=0 mode of that configuration "
                "has no operator (attribute error at the first solve)")
     chk.pat("F5-m0-convention", fn, "chi in {0, 1} and kinetic electrons all define the m=0 operator; other chi refused", okc,
@@ -622,12 +878,31 @@ def profile_calls(chk, fn):
                         unknown.append(f"{p_} <- {src(a_)}")
                     continue
                 if isinstance(a_, ast.Attribute) and src(a_.value) == "constants":
+                    # AUDIT: names stand for roles only while both sides use the same vocabulary: a constant handed to a parameter of
+                    # another name is a confusion when it carries the name of ANOTHER parameter of the same function (two roles
+                    # exchanged); a name the function does not know at all (a renamed parameter) is not compared
                     if a_.attr.lower() != p_.lower():
-                        wrong.append(f"parameter `{p_}` receives constants.{a_.attr}")
+                        if a_.attr.lower() in {f_.lower() for f_ in formals}:
+                            wrong.append(f"parameter `{p_}` receives constants.{a_.attr}, the value meant for parameter `{a_.attr}`")
+                        else:
+                            unknown.append(f"{p_} <- constants.{a_.attr}")
                 else:
                     unknown.append(f"{p_} <- {src(a_)}")
             if len(bound) != len(formals):
                 unknown.append("not every parameter is bound")
+            # relational: the constants of one profile share a suffix (CN0 / kN0 / deltaRN0; CTe / kTe / deltaRTe): a call that mixes
+            # the constants of two profiles evaluates neither of them
+            import re
+            fams = {}
+            for p_, a_ in bound.items():
+                if isinstance(a_, ast.Attribute) and src(a_.value) == "constants":
+                    m_ = re.fullmatch(r"(?:deltaR|C|k)([A-Z][A-Za-z0-9]*)", a_.attr)
+                    if m_:
+                        fams.setdefault(m_.group(1), []).append(f"constants.{a_.attr}")
+            if len(fams) > 1 and not wrong:
+                minority = min(fams.values(), key=len)
+                wrong.append(f"the call mixes the constants of {len(fams)} profiles ({sorted(fams)}): {minority[0]} belongs to another "
+                             "profile than the other arguments")
             res = False if wrong else (None if unknown else True)
             chk.ob("F5-qn-coefficients", c, f"default profile {src(c)[:70]}", res,
                    "the profile function receives the constants of the same name as its parameters" if res else
@@ -719,6 +994,21 @@ def qn_coefficients(chk):
         elif br == "kinetic":
             spec["rFactor"] = sp.Integer(0)
         spec["ddrFactor"] = sp.Integer(-1)
+        # AUDIT: the equation handed to DiffEqSolver is determined up to a common non-zero constant (c A, c B, c C, c D, c E describe
+        # the same problem): the coefficients are compared with the specification scaled by the constant the second-derivative
+        # coefficient carries (1 for the form the repository uses)
+        scale = sp.Integer(1)
+        try:
+            a_got = lam(kw["ddrFactor"], env, fn, st)[0] if "ddrFactor" in kw else defaults.get("ddrFactor")
+            if a_got is not None and a_got.is_number and a_got != 0:
+                scale = sp.nsimplify(a_got / sp.Integer(-1))
+        except KeyError:
+            pass
+        if scale != 1:
+            spec = {k_: scale * v_ for k_, v_ in spec.items()}
+        # AUDIT (VIOLATED below): each coefficient is the argument bound to the base constructor's parameter of that name (positional or
+        # keyword, by the callee's own signature; * / ** -> undecided) or the callee's default, parsed as a rational function of r over
+        # n0, Te, n0'/n0, B (anything else -> KeyError -> undecided) and compared algebraically with the quasi-neutrality equation
         for name, want in spec.items():
             if name not in kw:
                 if defaults.get(name) is None:
@@ -768,6 +1058,8 @@ def qn_coefficients(chk):
         ln, un = kw.get("lNeumannIdx"), kw.get("uNeumannIdx")
         lset = _literal_set(env.x(ln, use=st)) if ln is not None else set()
         uset = _literal_set(env.x(un, use=st)) if un is not None else set()
+        # AUDIT: both lists were resolved to literal sets of numbers (else undecided); regularity at the axis requires the Neumann
+        # condition for m = 0 at the inner radius only
         okn, bad = False, None
         if lset is not None and uset is not None:
             okn = lset == {0} and uset == set()
@@ -861,10 +1153,15 @@ def m0_selection(chk):
                                 out.append("self._k2PhiPsi" in src(env.x(e_, use=x)))
                 return any(out)
             if other[0] != f"{tab0}[{gi}]".replace(" ", ""):
-                bad = (f"the m=0 operator is selected by `{other[0]}`, not by the mode number of the global mode index `{gi}`: on a process "
-                       "whose block does not start at mode 0 the wrong mode gets the m=0 operator")
+                # AUDIT: only the loop's local index is provably the wrong index (position in the local block); any other index
+                # expression is not compared by its text
+                if li is not None and li != gi and other[0] == f"{tab0}[{li}]".replace(" ", ""):
+                    bad = (f"the m=0 operator is selected by `{other[0]}`, the position in the local block, not by the mode number of the "
+                           f"global mode index `{gi}`: on a process whose block does not start at mode 0 the wrong mode gets the m=0 operator")
             elif uses0(zero_branch) and not uses0(rest) and usesK(rest):
                 ok = True
+            # AUDIT: the test is on the table of (powers of) mode numbers read at the global mode index, which is zero exactly for
+            # m = 0; the branch that runs for it uses the generic operator and the other one the m = 0 operator
             elif uses0(rest) and not uses0(zero_branch) and usesK(zero_branch):
                 bad = ("the branches of the m=0 test are exchanged: the mode m=0 is solved with the generic operator and every other "
                        "mode with the m=0 operator")
@@ -912,16 +1209,27 @@ def equilibrium_cancellation(chk):
                 pts = [src(envi.x(fb[p_], use=_stmt_of(fills[0]))).replace(" ", "") for p_ in ff[1:3]] if all(p_ in fb for p_ in ff[1:3]) else []
                 if pts == ["eta_grid[0]", "eta_grid[3]"]:
                     ok = True
-                elif len(pts) == 2 and all(p_.startswith("eta_grid[") and p_.endswith("]") for p_ in pts):
+                # AUDIT: "parameters 2 and 3 of feq_vector are the r and v points" is the callee's signature: checked against the
+                # names it has today (r first, then v); another signature is not compared by position
+                elif len(pts) == 2 and all(p_.startswith("eta_grid[") and p_.endswith("]") for p_ in pts) and \
+                        [x.lower()[0] for x in ff[1:3]] == ["r", "v"]:
                     bad = (f"the equilibrium table {tab} is tabulated on the coordinates {pts} instead of (eta_grid[0], eta_grid[3]) = (r, v): "
                            "it is not f_eq at the points where f is integrated, so the perturbed density of the equilibrium is not zero")
     elif not calls:
         plain = [c for c in ast.walk(fn) if named(c, "get_rho")]
         subs = [n for n in ast.walk(fn) if (isinstance(n, ast.AugAssign) and isinstance(n.op, ast.Sub)) or
                 (isinstance(n, ast.BinOp) and isinstance(n.op, ast.Sub))]
+        # AUDIT: "the equilibrium is not subtracted" needs every form of a subtraction to have been looked for: `-`, `-=`,
+        # np.subtract, an addition of a negated / pre-negated term, any other call that receives the density
+        other_forms = [n for n in ast.walk(fn) if (isinstance(n, ast.Call) and src(n.func).split(".")[-1] in ("subtract", "add", "axpy", "isub"))
+                       or (isinstance(n, ast.UnaryOp) and isinstance(n.op, ast.USub) and not isinstance(n.operand, ast.Constant))
+                       or (isinstance(n, ast.AugAssign) and isinstance(n.op, ast.Add))
+                       or (isinstance(n, ast.Call) and not named(n, "get_rho") and not named(n, "getAllData") and
+                           any(isinstance(x, ast.Name) and x.id == "rho" for a_ in list(n.args) + [k.value for k in n.keywords]
+                               for x in ast.walk(a_)))]
         if plain:
             site = plain[0]
-            if not subs:
+            if not subs and not other_forms:
                 bad = ("getPerturbedRho integrates f without subtracting the equilibrium: the density handed to the quasi-neutrality solve "
                        "is the full density, the potential of the unperturbed equilibrium is not zero")
             for sb in subs:
@@ -930,10 +1238,20 @@ def equilibrium_cancellation(chk):
                     defs = [n for n in ast.walk(init) if isinstance(n, ast.Assign) and src(n.targets[0]) == src(a)]
                     if not defs:
                         continue
-                    dv = src(envi.x(defs[-1].value, use=defs[-1]))
+                    dx = envi.x(defs[-1].value, use=defs[-1])
+                    dv = src(dx)
                     shown = src(defs[-1].value)
-                    if "_quad_coeffs" not in dv and "get_quadrature_coefficients" not in dv and not any(
-                            named(x, "get_rho") or named(x, "get_perturbed_rho") for x in ast.walk(defs[-1].value)):
+                    # AUDIT: "computed without the quadrature weights used for f" is true of the code when the defining expression
+                    # (constructor locals expanded, every local resolved) cannot contain a quadrature at all: no attribute of the
+                    # object (the weights are one), no kernel call, no reduction (sum / dot / einsum / @ ...)
+                    REDUCE = ("sum", "dot", "einsum", "tensordot", "matmul", "inner", "vdot", "trapz", "trapezoid", "simps", "simpson", "quad",
+                              "average", "mean", "apply_along_axis")
+                    closed_form = len(defs) == 1 and not envi.amb and \
+                        not any(isinstance(x, ast.Attribute) and isinstance(x.value, ast.Name) and x.value.id == "self" for x in ast.walk(dx)) and \
+                        not any(isinstance(x, ast.Call) and src(x.func).split(".")[-1] in REDUCE for x in ast.walk(dx)) and \
+                        not any(isinstance(x, ast.BinOp) and isinstance(x.op, ast.MatMult) for x in ast.walk(dx)) and \
+                        not any(isinstance(x, (ast.ListComp, ast.GeneratorExp, ast.Lambda)) for x in ast.walk(dx))
+                    if closed_form and not any(named(x, "get_rho") or named(x, "get_perturbed_rho") for x in ast.walk(dx)):
                         bad = (f"the equilibrium density subtracted in getPerturbedRho, `{src(a)}`, is computed in the constructor as "
                                f"`{shown[:90]}` without the quadrature weights used for f: the velocity integral of the Maxwellian taken another "
                                "way (closed form, other rule) differs from the quadrature of the tabulated f_eq by the quadrature error, so "
@@ -986,6 +1304,9 @@ def spectral_typestate(chk):
             local_fns.setdefault(n.name, n)
     decided = ("real", "modes")
 
+    # AUDIT: the representation of a grid is changed only by the pipeline methods (getModes: real -> modes, solveEquation: modes in /
+    # modes out, findPotential: modes -> real), whose transforms are judged by F5-transform-pair; a state that is not one of the two
+    # decided ones (unset, mixed after a branch, unknown after unbound arguments) gives undecided, never a violation
     def judge(state, want):
         return (state == want) if state in decided else None
 
@@ -1026,6 +1347,13 @@ def spectral_typestate(chk):
                 walk(getattr(s, "orelse", []) or [], st, depth)
                 walk(getattr(s, "finalbody", []) or [], st, depth)
             else:
+                # AUDIT ("produced by getRho, the equilibrium is not removed"): a store into the density between getRho and the solve
+                # (the driver subtracting the equilibrium itself) makes its origin unknown
+                if isinstance(s, (ast.Assign, ast.AugAssign)):
+                    for t_ in (s.targets if isinstance(s, ast.Assign) else [s.target]):
+                        for x_ in ast.walk(t_):
+                            if isinstance(x_, ast.Name) and x_.id in kind:
+                                kind[x_.id] = "modified"
                 calls = [c for c in ast.walk(s) if isinstance(c, ast.Call)]
                 calls.sort(key=lambda c: (c.end_lineno, c.end_col_offset))
                 for c in calls:
@@ -1094,6 +1422,109 @@ def spectral_typestate(chk):
     walk(fn.body, {"rho": "unset", "phi": "unset"})
 
 
+MODELLED_LAYOUT_CALLS = {"setLayout", "saveGridValues", "restoreGridValues", "freeGridSave"}
+DRIVER_GRIDS = ("distribFunc", "phi", "rho")
+
+
+def unmodelled_layout_changes(chk):
+    """the calls in the driver that may change the layout of a grid by other means than the four calls the layout typestate walk of
+    the driver models (setLayout / saveGridValues / restoreGridValues / freeGridSave): a method of Grid that reaches one of them
+    or stores the layout attributes itself (a context manager, a helper that switches and switches back), or a method of a grid
+    variable that the Grid class does not define.  The abstract layout of a grid after such a call is not what the walk believes."""
+    try:
+        gcls = chk.mod(U.GRID).cls("Grid")
+        drv = chk.mod(U.DRIVER).tree
+    except (AnalysisError, KeyError, AttributeError):
+        return ["the Grid class / the driver could not be read"]
+    methods = {}
+    open_bases = []
+
+    def gather(rel, cnode, depth=0):
+        """methods of a class and of its base classes (same module, or imported from a module of the repository)"""
+        for m in cnode.body:
+            if isinstance(m, ast.FunctionDef):
+                methods.setdefault(m.name, m)
+        for b in cnode.bases:
+            if isinstance(b, ast.Name) and b.id == "object":
+                continue
+            if not isinstance(b, ast.Name) or depth > 4:
+                open_bases.append(src(b))
+                continue
+            tree = chk.mod(rel).tree
+            local = [c for c in tree.body if isinstance(c, ast.ClassDef) and c.name == b.id]
+            if local:
+                gather(rel, local[0], depth + 1)
+                continue
+            found = False
+            for imp in tree.body:
+                if isinstance(imp, ast.ImportFrom) and imp.module and any((a.asname or a.name) == b.id for a in imp.names):
+                    parts = rel.split("/")[:-1]
+                    if imp.level:
+                        parts = parts[:len(parts) - (imp.level - 1)]
+                    else:
+                        parts = []
+                    rel2 = "/".join(parts + imp.module.split(".")) + ".py"
+                    orig = next(a.name for a in imp.names if (a.asname or a.name) == b.id)
+                    try:
+                        c2 = [c for c in chk.mod(rel2).tree.body if isinstance(c, ast.ClassDef) and c.name == orig]
+                    except AnalysisError:
+                        c2 = []
+                    if c2:
+                        gather(rel2, c2[0], depth + 1)
+                        found = True
+            if not found:
+                open_bases.append(b.id)
+    gather(U.GRID, gcls)
+    if open_bases:
+        return [f"the base class `{open_bases[0]}` of Grid (not found in the repository)"]
+    layout_attrs = set()
+    if "setLayout" in methods:
+        layout_attrs = {src(t) for n in ast.walk(methods["setLayout"]) if isinstance(n, ast.Assign) for t in n.targets
+                        if isinstance(t, ast.Attribute) and src(t.value) == "self"}
+    changers = set(MODELLED_LAYOUT_CALLS) & set(methods)
+    for _ in range(len(methods)):
+        more = {name for name, m in methods.items() if name not in changers and name != "__init__" and (
+            any(isinstance(n, ast.Call) and isinstance(n.func, ast.Attribute) and src(n.func.value) == "self" and n.func.attr in changers
+                for n in ast.walk(m)) or
+            any(isinstance(n, ast.Attribute) and isinstance(n.ctx, ast.Store) and src(n) in layout_attrs for n in ast.walk(m)))}
+        if not more:
+            break
+        changers |= more
+    out = []
+    for c in ast.walk(drv):
+        if isinstance(c, ast.Call) and isinstance(c.func, ast.Attribute):
+            if c.func.attr in changers - MODELLED_LAYOUT_CALLS:
+                out.append(f"`{src(c)[:60]}` (Grid.{c.func.attr} changes the layout itself)")
+            elif isinstance(c.func.value, ast.Name) and c.func.value.id in DRIVER_GRIDS and c.func.attr not in methods:
+                out.append(f"`{src(c)[:60]}` (not a method of Grid that was read)")
+    return out
+
+
+class _Demote:
+    """the check, with every VIOLATED verdict recorded as UNDECIDED: used for an engine whose abstract state is known to be
+    unreliable on the code at hand (it met constructs it does not model)"""
+
+    def __init__(self, chk, reason):
+        self.__dict__["_chk"] = chk
+        self.__dict__["_reason"] = reason
+
+    def ob(self, rule, node, construct, ok, msg="", **kw):
+        if ok is False:
+            ok, msg = None, f"{msg} - NOT DECIDED: {self._reason}"
+        return self._chk.ob(rule, node, construct, ok, msg, **kw)
+
+    def pat(self, rule, node, construct, ok, good, bad=None, **kw):
+        if ok:
+            return self._chk.ob(rule, node, construct, True, good, **kw)
+        return self.ob(rule, node, construct, None, (bad or "idiom not recognised") + f" - NOT DECIDED: {self._reason}", **kw)
+
+    def __getattr__(self, name):
+        return getattr(self._chk, name)
+
+    def __setattr__(self, name, value):
+        setattr(self._chk, name, value)
+
+
 def run(chk):
     chk.explanation = (
         "Transform pairing (fft/ifft of a standard library, along theta = last axis of the asserted layout, line by line in place), "
@@ -1113,7 +1544,16 @@ def run(chk):
     equilibrium_cancellation(chk)
     per_mode(chk)
     solver_index_spaces(ViewedCheck(chk))
-    driver_typestate(ViewedCheck(chk))
+    # AUDIT: the layout typestate walk of the driver (engine shared with C05) models four layout calls; when the driver changes
+    # layouts by other means its verdicts are not true of the code: they are recorded as undecided
+    unmodelled = unmodelled_layout_changes(chk)
+    if unmodelled:
+        chk.ob("S-known-layout", chk.func(U.DRIVER, "main"), "layout changes of the driver are the modelled calls", None,
+               f"the driver changes the layout of a grid through {unmodelled[0]}: the layout typestate of the driver is not followed there",
+               file=U.DRIVER, func="main")
+        driver_typestate(ViewedCheck(_Demote(chk, "the driver changes layouts through " + unmodelled[0])))
+    else:
+        driver_typestate(ViewedCheck(chk))
     spectral_typestate(chk)
     chk.floor("F5-", 14)
     chk.floor("S-spectral-state", 10)
